@@ -9,18 +9,18 @@ pub fn f0_empty<const M: usize>() {
     unsafe {
         pool_reset(0);
         let b = Bump::<M>::with_min_align();
-        assert!(b.min_align() == M, "[C04] min_align() differs from the configured minimum alignment");
-        assert!(b.current_chunk_footer.get() == empty_footer(), "[C08] fresh arena is not chunk-less");
-        assert!(b.allocated_bytes() == 0 && b.allocated_bytes_including_metadata() == 0, "[C08] fresh arena reports memory");
-        assert!(b.chunk_capacity() == 0, "[C18] fresh arena reports capacity");
-        assert!(b.allocation_limit().is_none(), "[C07] fresh arena has a limit");
-        assert!(NREQ == 0, "[C03] constructing a chunk-less arena asked the global allocator");
+        vassert!(b.min_align() == M, "NEVER: [C04] min_align() differs from the configured minimum alignment");
+        vassert!(b.current_chunk_footer.get() == empty_footer(), "NEVER: [C08] fresh arena is not chunk-less");
+        vassert!(b.allocated_bytes() == 0 && b.allocated_bytes_including_metadata() == 0, "NEVER: [C08] fresh arena reports memory");
+        vassert!(b.chunk_capacity() == 0, "NEVER: [C18] fresh arena reports capacity");
+        vassert!(b.allocation_limit().is_none(), "NEVER: [C07] fresh arena has a limit");
+        vassert!(NREQ == 0, "NEVER: [C03] constructing a chunk-less arena asked the global allocator");
         let z = Bump::<M>::try_with_min_align_and_capacity(0).unwrap();
-        assert!(z.current_chunk_footer.get() == empty_footer() && NREQ == 0, "[C03,C18] capacity 0 obtained memory");
+        vassert!(z.current_chunk_footer.get() == empty_footer() && NREQ == 0, "NEVER: [C03,C18] capacity 0 obtained memory");
         drop(b);
         drop(z);
-        assert!(NFREE == 0 && !FOREIGN_FREE, "[C03] dropping a chunk-less arena freed something (the static sentinel?)");
-        assert!(empty_is_pristine(), "[C20] shared static sentinel modified");
+        vassert!(NFREE == 0 && !FOREIGN_FREE, "NEVER: [C03] dropping a chunk-less arena freed something (the static sentinel?)");
+        vassert!(empty_is_pristine(), "NEVER: [C20] shared static sentinel modified");
         kani::cover!(true, "REACH: end of harness");
     }
 }
@@ -47,41 +47,41 @@ pub fn f0_cap<const M: usize, const CAP: usize, const DISP: u8>() {
         pool_reset(mask);
         DISPLACE = DISP;
         let r = Bump::<M>::try_with_min_align_and_capacity(CAP);
-        assert!(empty_is_pristine(), "[C20] shared static sentinel modified");
+        vassert!(empty_is_pristine(), "NEVER: [C20] shared static sentinel modified");
         match r {
             Ok(b) => {
-                assert!(NREC == 1 && NREQ == 1, "[C03] constructor did not obtain exactly one block");
+                vassert!(NREC == 1 && NREQ == 1, "NEVER: [C03] constructor did not obtain exactly one block");
                 let rec = LEDGER[0];
                 let f = b.current_chunk_footer.get();
                 let fa = f.as_ptr() as usize;
                 // RI clause 1 / 4
-                assert!(f.as_ref().data.as_ptr() as usize == rec.ptr, "[C03] chunk start is not the block obtained");
-                assert!(f.as_ref().layout.size() == rec.size && f.as_ref().layout.align() == rec.align, "[C03] recorded layout differs from the requested one");
-                assert!(fa + FOOTER_SIZE == rec.ptr + rec.size, "[C01] footer not at the end of the block");
-                assert!(fa & 15 == 0 && rec.align >= 16 && rec.align >= M, "[C04] footer/chunk alignment");
-                assert!(f.as_ref().ptr.get().as_ptr() as usize == fa, "[C10] fresh chunk's finger is not at the footer");
-                assert!(f.as_ref().prev.get() == empty_footer(), "[C03] first chunk not linked to the sentinel");
+                vassert!(f.as_ref().data.as_ptr() as usize == rec.ptr, "NEVER: [C03] chunk start is not the block obtained");
+                vassert!(f.as_ref().layout.size() == rec.size && f.as_ref().layout.align() == rec.align, "NEVER: [C03] recorded layout differs from the requested one");
+                vassert!(fa + FOOTER_SIZE == rec.ptr + rec.size, "NEVER: [C01] footer not at the end of the block");
+                vassert!(fa & 15 == 0 && rec.align >= 16 && rec.align >= M, "NEVER: [C04] footer/chunk alignment");
+                vassert!(f.as_ref().ptr.get().as_ptr() as usize == fa, "NEVER: [C10] fresh chunk's finger is not at the footer");
+                vassert!(f.as_ref().prev.get() == empty_footer(), "NEVER: [C03] first chunk not linked to the sentinel");
                 // C18 capacity honoured, C08 accounting
-                assert!(b.chunk_capacity() >= CAP, "[C18] requested capacity not available");
-                assert!(b.chunk_capacity() == rec.size - FOOTER_SIZE, "[C18] chunk_capacity of an empty chunk is not its usable size");
-                assert!(b.allocated_bytes() == rec.size - FOOTER_SIZE, "[C08] allocated_bytes != usable bytes held");
-                assert!(b.allocated_bytes_including_metadata() == rec.size, "[C08] including_metadata != bytes held");
-                assert!(b.allocation_limit().is_none() && b.min_align() == M, "[C04,C07] constructor state");
+                vassert!(b.chunk_capacity() >= CAP, "NEVER: [C18] requested capacity not available");
+                vassert!(b.chunk_capacity() == rec.size - FOOTER_SIZE, "NEVER: [C18] chunk_capacity of an empty chunk is not its usable size");
+                vassert!(b.allocated_bytes() == rec.size - FOOTER_SIZE, "NEVER: [C08] allocated_bytes != usable bytes held");
+                vassert!(b.allocated_bytes_including_metadata() == rec.size, "NEVER: [C08] including_metadata != bytes held");
+                vassert!(b.allocation_limit().is_none() && b.min_align() == M, "NEVER: [C04,C07] constructor state");
                 // C18: that many bytes can be served without more memory
                 FORBID_ALLOC = true;
                 let n = (CAP + (M - 1)) & !(M - 1);
                 if n <= b.chunk_capacity() {
                     let p = b.try_alloc_layout(Layout::from_size_align(n, 1).unwrap());
-                    assert!(p.is_ok(), "[C18] arena built with a capacity cannot serve that many bytes");
+                    vassert!(p.is_ok(), "NEVER: [C18] arena built with a capacity cannot serve that many bytes");
                 }
                 FORBID_ALLOC = false;
                 drop(b);
-                assert!(NFREE == 1 && !FOREIGN_FREE && !DOUBLE_FREE && !LAYOUT_MISMATCH && ledger_live_count() == 0,
-                        "[C03] drop did not return exactly the block obtained");
+                vassert!(NFREE == 1 && !FOREIGN_FREE && !DOUBLE_FREE && !LAYOUT_MISMATCH && ledger_live_count() == 0,
+                        "NEVER: [C03] drop did not return exactly the block obtained");
                 kani::cover!(true, "REACH: constructed");
             }
             Err(_) => {
-                assert!(NREC == 0 && NFREE == 0, "[C03,C09] failed constructor leaked or freed a block");
+                vassert!(NREC == 0 && NFREE == 0, "NEVER: [C03,C09] failed constructor leaked or freed a block");
                 kani::cover!(NREQ == 1, "REACH: refused by the global allocator");
             }
         }
@@ -97,16 +97,16 @@ pub fn f0_cap_any<const M: usize>() {
         let r = Bump::<M>::try_with_min_align_and_capacity(c);
         match r {
             Ok(b) => {
-                assert!(c == 0, "[C09,C19] constructor succeeded although the global allocator refused");
+                vassert!(c == 0, "NEVER: [C09,C19] constructor succeeded although the global allocator refused");
                 core::mem::forget(b);
             }
             Err(_) => {
-                assert!(NLOG <= 1, "[C09] more than one request for the initial chunk");
+                vassert!(NLOG <= 1, "NEVER: [C09] more than one request for the initial chunk");
                 if NLOG == 1 {
                     let (rs, ra) = LOG[0];
-                    assert!(rs >= FOOTER_SIZE && rs - FOOTER_SIZE >= c, "[C18,C19] initial chunk smaller than the requested capacity (wrapped?)");
-                    assert!(ra >= 16 && ra >= M, "[C04] initial chunk alignment");
-                    assert!(rs <= isize::MAX as usize, "[C19] request above isize::MAX reached the global allocator");
+                    vassert!(rs >= FOOTER_SIZE && rs - FOOTER_SIZE >= c, "NEVER: [C18,C19] initial chunk smaller than the requested capacity (wrapped?)");
+                    vassert!(ra >= 16 && ra >= M, "NEVER: [C04] initial chunk alignment");
+                    vassert!(rs <= isize::MAX as usize, "NEVER: [C19] request above isize::MAX reached the global allocator");
                 }
                 kani::cover!(NLOG == 0 && c > 0, "REACH: refused before asking (unrepresentable size)");
                 kani::cover!(NLOG == 1 && c > (1 << 40), "REACH: huge capacity requested from the allocator");
@@ -188,10 +188,10 @@ f0a!(f0_cap_any_m16, 16);
 #[kani::proof]
 pub fn f0_sentinel_align() {
     let a = core::mem::align_of_val(&crate::EMPTY_CHUNK);
-    assert!(a >= 16, "[C04] static sentinel not guaranteed to be aligned to every supported minimum alignment (16)");
-    assert!(core::mem::size_of_val(&crate::EMPTY_CHUNK) >= FOOTER_SIZE, "[C01] sentinel smaller than a footer");
+    vassert!(a >= 16, "NEVER: [C04] static sentinel not guaranteed to be aligned to every supported minimum alignment (16)");
+    vassert!(core::mem::size_of_val(&crate::EMPTY_CHUNK) >= FOOTER_SIZE, "NEVER: [C01] sentinel smaller than a footer");
     unsafe {
-        assert!(empty_is_pristine(), "[C20] sentinel initial value");
+        vassert!(empty_is_pristine(), "NEVER: [C20] sentinel initial value");
     }
     kani::cover!(true, "REACH: end of harness");
 }
